@@ -25,6 +25,11 @@ OPS = {
     "DROPU": "drop table u",
     "C": None,
 }
+# only in the histories that start from the churned state (and in all histories of the thorough tier)
+MORE_OPS = {"DALL": "delete from t", "R": None}
+ALL_OPS = dict(OPS, **MORE_OPS)
+# non-initial start state: two row-sets deleted completely, compacted away, database reopened twice (disk)
+CHURN = ["IT1", "IT2", "DALL", "C", "R", "R"]
 QUERIES = [
     ("select k, v, s from t", None),
     ("select k, v from t order by k", [0]),
@@ -56,18 +61,25 @@ def layouts(tier):
     return U.LAYOUTS_QUICK + (U.LAYOUTS_MORE if tier == "thorough" else [])
 
 
-def steps_of(kind, h):
+def steps_of(kind, h, engine="disk"):
     steps = [{"sql": KINDS[kind]}, {"sql": "create table u(k int primary key, w int)"}]
     for o in h:
-        steps.append({"op": "compact"} if o == "C" else {"sql": OPS[o]})
+        if o == "R":
+            # shutdown + reopen on disk; nothing on the memory engine (same number of steps)
+            steps.append({"op": "reopen"} if engine == "disk" else {"op": "compact"})
+        else:
+            steps.append({"op": "compact"} if o == "C" else {"sql": ALL_OPS[o]})
     steps += [{"sql": q} for q, _ in QUERIES]
     return steps
 
 
 def cases(tier):
+    ops = list(OPS) if tier == "quick" else list(ALL_OPS)
     for kind in KINDS:
-        for h in U.seqs(list(OPS), depth(tier), 1):
+        for h in U.seqs(ops, depth(tier), 1):
             yield {"kind": kind, "history": list(h)}
+        for h in U.seqs(list(ALL_OPS), depth(tier) - 1, 0):
+            yield {"kind": kind, "history": CHURN + list(h)}
 
 
 def norm(r, okeys):
@@ -124,7 +136,7 @@ def judge_batch(chk, batch, res, lays, per, states):
 def run(tier, seed):
     lays = layouts(tier)
     chk = core.Check("C05", tier, "model_checking",
-                     f"all statement histories of length 1..{depth(tier)} over {list(OPS)} x table kinds {list(KINDS)}, each followed by "
+                     f"all statement histories of length 1..{depth(tier)} over {list(OPS) if tier == 'quick' else list(ALL_OPS)} from the empty database, and all histories of length 0..{depth(tier) - 1} over {list(ALL_OPS)} from the churned start state {CHURN} (R = shutdown+reopen on disk), x table kinds {list(KINDS)}, each followed by "
                      f"{len(QUERIES)} queries (pk range scans, joins on pk, group by, order by); executed in lock-step on the memory engine and on "
                      f"{len(lays)} disk layouts; a case = (kind, history, statement index, layout); non-trivial = history contains a DML statement", seed)
     cs = list(cases(tier))
@@ -136,8 +148,8 @@ def run(tier, seed):
         batch = cs[b0:b0 + BATCH]
         scripts = []
         for c in batch:
-            st = steps_of(c["kind"], c["history"])
-            scripts.append({"id": 0, "engine": "mem", "steps": st})
+            scripts.append({"id": 0, "engine": "mem", "steps": steps_of(c["kind"], c["history"], "mem")})
+            st = steps_of(c["kind"], c["history"], "disk")
             for l in lays:
                 scripts.append({"id": 0, "engine": "disk", "opts": l, "steps": st})
         res = runner.run_many("sql", scripts, timeout=120)
@@ -153,7 +165,7 @@ def run(tier, seed):
 def replay(path):
     d = json.load(open(path))
     c = d["case"]
-    st = steps_of(c["kind"], c["history"])
-    out = runner.run_many("sql", [{"id": "mem", "engine": "mem", "steps": st}, {"id": "disk", "engine": "disk", "opts": c["layout"], "steps": st}])
+    out = runner.run_many("sql", [{"id": "mem", "engine": "mem", "steps": steps_of(c["kind"], c["history"], "mem")},
+                                  {"id": "disk", "engine": "disk", "opts": c["layout"], "steps": steps_of(c["kind"], c["history"], "disk")}])
     print(json.dumps(out, indent=1))
     return 0
